@@ -67,6 +67,7 @@ type FuncContract struct {
 	Unroll   int
 	Opaque   []string
 	Lemmas   []string // lemmas made available for clause-level use
+	Houdini  bool
 	Invokes  []string // extern: parameters that are function values the callee may call (any number of times)
 	Notes    []string
 	File     string
@@ -361,6 +362,8 @@ func (cs *Contracts) ReadFile(path, pkgPath string) error {
 				}
 			case "nohavoc":
 				cur.NoHavoc = true
+			case "houdini":
+				cur.Houdini = true
 			case "invokes":
 				cur.Invokes = append(cur.Invokes, strings.Fields(rest)...)
 			case "lemmas":
